@@ -9,7 +9,7 @@ Extraction "model.ml"
   encode_record decode_record decode_value encode_hint decode_hint
   encode_marker decode_marker disk_size_estimate encoded_len frame df_run
   check_options db_open db_close db_put db_get db_delete db_list_keys db_fold db_fold_n db_stat db_sync
-  new_batch batch_put batch_get batch_delete batch_commit batch_refuse batch_put_refused db_merge db_backup db_files
+  new_batch batch_put batch_get batch_delete batch_commit batch_refuse batch_put_refused batch_put_sync_refused batch_commit_flushed db_merge db_backup db_files
   lf_crash idx_get mkCfg mkDisk lf_empty step run crash_open crash_open_rm crash_disk fs_replay fs_empty
   db_read di_new di_rewind di_seek di_next di_valid di_cur shards_of next_power_of_two shard_of_hash sh_run flat_run
   lstep lrun holder db_merge_i crun run_cmd dec_meta load_merge_files.
